@@ -21,6 +21,98 @@ func runC02(c *Check, tier string) {
 	ruleR02c(c, "R02c")
 	ruleR02d(c, "R02d")
 	ruleRecordCacheIndependent(c, "R02e")
+	ruleResolverTotal(c, "R02f")
+	ruleR02g(c, "R02g")
+	ruleR02h(c, "R02h")
+}
+
+// R02g: the result writer always stores (a no-op rebuild can only hit on what the last successful
+// execution recorded; an existing entry under the key must be replaced, it may describe nothing).
+func ruleR02g(c *Check, rule string) {
+	c.Rule(rule, "TargetResultCache.Write returns nil only after the backend Set of the marshalled result (no shortcut on an existing entry: a record written with the cache disabled or for a no-cache target has no outputs and must be replaced)", 1)
+	w := anchor(c, rule, "caching", "TargetResultCache", "Write")
+	if w == nil {
+		return
+	}
+	isSet := func(in ssa.Instruction) bool {
+		cs, ok := in.(ssa.CallInstruction)
+		if !ok {
+			return false
+		}
+		cc := cs.Common()
+		return cc.IsInvoke() && cc.Method.Name() == "Set" && engine.TypeKey(cc.Value.Type()) == "caching/backends.CacheBackend"
+	}
+	reach, at := engine.PathExists(w, nil, successReturn, engine.PathQuery{CutInstr: isSet})
+	pos := c.P.Pos(w.Pos())
+	if at != nil {
+		pos = c.P.InstrPos(at)
+	}
+	c.Require(!reach, rule, "result-always-stored/"+c.P.FuncName(w), "every `return nil` of the result writer is preceded by the backend Set", "the result writer can report success without storing the result (e.g. because an entry already exists): a stale record — such as the output-less one written while the cache was disabled — is never replaced, so every later build misses on it and re-executes", pos)
+}
+
+// R02h: the identifier recorded for an output is the declared identifier, verbatim — the restore
+// validation compares exactly these strings, so a canonicalised spelling never validates.
+func ruleR02h(c *Check, rule string) {
+	c.Rule(rule, "each record field that the cached-outputs validation reads back as the output's identifier (file path, directory path, docker local tag) is stored from model.Output.Identifier unchanged", 3)
+	// the record fields read back: getters called by the function that rebuilds output definitions from a record
+	var reader *ssa.Function
+	for _, fn := range c.P.Funcs {
+		if !engine.InPackage(fn, "output") || fn.Signature.Params().Len() != 1 || engine.TypeKey(fn.Signature.Params().At(0).Type()) != "proto/gen.Output" {
+			continue
+		}
+		if fn.Signature.Results().Len() == 2 && fn.Signature.Results().At(0).Type().String() == "string" {
+			reader = fn
+		}
+	}
+	if reader == nil {
+		c.Unknown(rule, "anchor/record-reader", "anchor-unresolved: no function in internal/output maps a *gen.Output record back to its output definition", "-")
+		return
+	}
+	fields := map[engine.FieldKey]bool{}
+	for _, s := range engine.SitesIn(reader) {
+		cal := s.Common().StaticCallee()
+		if cal == nil || !engine.InPackage(cal, "proto/gen") || !strings.HasPrefix(cal.Name(), "Get") || cal.Signature.Recv() == nil {
+			continue
+		}
+		if cal.Signature.Results().Len() != 1 || cal.Signature.Results().At(0).Type().String() != "string" {
+			continue
+		}
+		fields[engine.FieldKey{T: engine.TypeKey(cal.Signature.Recv().Type()), F: strings.TrimPrefix(cal.Name(), "Get")}] = true
+	}
+	if len(fields) == 0 {
+		c.Unknown(rule, "anchor/record-identifier-fields", "anchor-unresolved: the record reader uses no string getters", "-")
+		return
+	}
+	var keys []engine.FieldKey
+	for k := range fields {
+		keys = append(keys, k)
+	}
+	sort.Slice(keys, func(i, j int) bool { return keys[i].String() < keys[j].String() })
+	for _, k := range keys {
+		stores := storesToField(c, k)
+		n := 0
+		for _, st := range stores {
+			if !engine.InPackage(st.Parent(), "output") {
+				continue
+			}
+			n++
+			ok := true
+			orig := engine.Origins(st.Val)
+			if len(orig) == 0 {
+				ok = false
+			}
+			for _, o := range orig {
+				base, isId := fieldReadOn(o, "Identifier")
+				if o == nil || !isId || engine.TypeKey(base.Type()) != "model.Output" {
+					ok = false
+				}
+			}
+			c.Require(ok, rule, "record-identifier-verbatim/"+k.String()+"/"+c.P.FuncName(st.Parent()), "stored from model.Output.Identifier unchanged", "the identifier recorded in the cache entry is not the declared identifier itself (it is transformed or comes from elsewhere): the restore validation compares the strings and would reject every hit for spellings the transformation changes, re-executing the target on every build", c.P.InstrPos(st))
+		}
+		if n == 0 {
+			c.Unknown(rule, "record-identifier-verbatim/"+k.String(), "no store into this record field found in the output handlers", "-")
+		}
+	}
 }
 
 // impureSources: values that depend on where/when/who runs the build.
